@@ -1,11 +1,93 @@
-import PyTrie.Model.Basic
-/-! Line-protocol front end for the `bin.*` commands (stub: to be filled in). -/
+import PyTrie.Model.Bin
+import PyTrie.Model.Keccak
+/-! Line-protocol front end for the binary trie and the branch helpers (`bin.*`). All tries of a
+    session share one database, as BinaryTrie objects sharing one dict do. -/
 namespace PyTrie.BinDrv
+open PyTrie.Bin
 
 structure St where
-  dummy : Unit := ()
+  db : Db := []
+  tries : Array (Option BNode) := #[]
   deriving Inhabited
 
-def step (st : St) (_cmd : String) (_args : List String) : St × String := (st, "bad-op")
+def joinOr (l : List String) (sep : String) : String := if l.isEmpty then "-" else sep.intercalate l
+
+def sortPairs (l : Db) : Db := (l.toArray.qsort (fun a b => toHex a.1 < toHex b.1)).toList
+
+def save (db : Db) (n : BNode) : Db :=
+  let h := hashNode keccak n
+  if (lookup db h).isSome then db.map (fun e => if e.1 == h then (h, encNode keccak n) else e)
+  else db ++ [(h, encNode keccak n)]
+
+def fmtNodes (l : List BNode) : String := joinOr (l.map fun n => toHex (encNode keccak n)) ","
+
+def applySet (st : St) (i : String) (k v : String) (sub : Bool) : St × String :=
+  match i.toNat?, ofHex k, ofHex v with
+  | some i, some k, some v =>
+    match st.tries[i]? with
+    | none => (st, "bad-op")
+    | some t =>
+      let (r, saves) := bsetTopS t (toBits k) v sub
+      let db' := saves.foldl save st.db
+      match r with
+      | .ok t' => ({ st with db := db', tries := st.tries.set! i t' }, "ok")
+      | .error .override => ({ st with db := db' }, "exn NodeOverrideError")
+  | _, _, _ => (st, "bad-op")
+
+def step (st : St) (cmd : String) (args : List String) : St × String :=
+  let bad := (st, "bad-op")
+  let trie (s : String) : Option (Option BNode) := s.toNat?.bind fun i => st.tries[i]?
+  match cmd, args with
+  | "reset", [] => ({}, "ok")
+  | "new", [] => ({ st with tries := st.tries.push none }, toString st.tries.size)
+  | "set", [i, k, v] => applySet st i k v false
+  | "del", [i, k] => applySet st i k "-" false
+  | "delsub", [i, k] => applySet st i k "-" true
+  | "get", [i, k] =>
+    match trie i, ofHex k with
+    | some t, some k => (st, match bgetTop t (toBits k) with | some v => s!"v {toHex v}" | none => "None")
+    | _, _ => bad
+  | "root", [i] => match trie i with | some t => (st, toHex (rootOf keccak t)) | none => bad
+  | "db", [] => (st, joinOr ((sortPairs st.db).map fun e => s!"{toHex e.1}:{toHex e.2}") ",")
+  | "exists", [i, k] =>
+    match trie i, ofHex k with
+    | some t, some k => (st, if branchExistsTop t (toBits k) then "True" else "False")
+    | _, _ => bad
+  | "branch", [i, k] =>
+    match trie i, ofHex k with
+    | some t, some k => (st, match getBranchTop t (toBits k) with | .ok l => fmtNodes l | .error _ => "exn InvalidKeyError")
+    | _, _ => bad
+  | "nodes", [i] =>
+    match trie i with
+    | some t => (st, match t with | none => "-" | some n => fmtNodes (trieNodes n))
+    | none => bad
+  | "witness", [i, k] =>
+    match trie i, ofHex k with
+    | some t, some k => (st, match getWitnessTop t (toBits k) with | .ok l => fmtNodes l | .error _ => "exn InvalidKeyError")
+    | _, _ => bad
+  | "valid", [r, k, v, ns] =>
+    let toks := if ns = "-" then [] else ns.splitOn ","
+    let val : Option (Option Bytes) := if v = "None" then some none else (ofHex v).map some
+    match ofHex r, ofHex k, val, toks.mapM ofHex with
+    | some r, some k, some val, some nodes =>
+      (st, match ifBranchValid keccak nodes r (toBits k) val with
+        | .valid => "True"
+        | .assertion => "exn AssertionError"
+        | .validation => "exn ValidationError"
+        | .keyError => "exn KeyError"
+        | .invalidNode => "exn InvalidNode"
+        | .other => "exn Other")
+    | _, _, _, _ => bad
+  | "getat", [r, k] =>
+    match ofHex r, ofHex k with
+    | some r, some k =>
+      (st, match bgetD (keccak []) st.db (st.db.length + 8 * k.length + 2) r (toBits k) with
+        | .ok (some v) => s!"v {toHex v}"
+        | .ok none => "None"
+        | .error (.keyError _) => "exn KeyError"
+        | .error .invalidNode => "exn InvalidNode"
+        | .error _ => "exn Other")
+    | _, _ => bad
+  | _, _ => bad
 
 end PyTrie.BinDrv
